@@ -178,7 +178,7 @@ func genC01TruthTable(g *G, id int) C01Case {
 
 var atomKinds = []string{"minCount", "maxCount", "exactCount", "minLength", "maxLength", "exactLength", "in",
 	"containsAll", "containsSome", "minInclusive", "minExclusive", "maxInclusive", "maxExclusive",
-	"lessThanProperty", "lessThanOrEqualsToProperty", "equalsToProperty", "disjointWithProperty", "datatype"}
+	"lessThanProperty", "lessThanOrEqualsToProperty", "equalsToProperty", "disjointWithProperty", "datatype", "pattern", "uniqueValues"}
 
 func (g *G) randAtom(countOnly bool) Atom {
 	p := g.path(g.n(3))
@@ -221,6 +221,12 @@ func (g *G) randAtom(countOnly bool) Atom {
 		a.Path = noInverse(a.Path)
 	case "datatype":
 		a.Dt = "http://www.w3.org/2001/XMLSchema#" + g.pick([]string{"string", "integer", "boolean", "float"})
+	case "pattern":
+		a.Lit = g.pick([]string{"a", "b", "c", "dd", "1", "true", "cc"})
+		a.AnchorStart, a.AnchorEnd = g.coin(0.5), g.coin(0.5)
+	case "uniqueValues":
+		u := g.coin(0.8)
+		a.UArg = &u
 	}
 	return a
 }
